@@ -71,7 +71,7 @@ def step (st : St) (w : List String) : St × String :=
     match parseRows rest [] with
     | some s => (⟨s, ⟨s, false⟩⟩, s!"ok {s.length} {(s.map (·.cells.length)).sum}")
     | none => (st, "bad-op")
-  | ["rows"] => (st, showGrid (getRows st.ws.view))
+  | ["rows"] => (st, if getRowsErr st.ws.view then "E_MAXROWS" else showGrid (getRows st.ws.view))
   | ["cols"] => (st, showGrid (getCols st.ws.view))
   | ["search", h] =>
     match unhexS h with
